@@ -221,11 +221,13 @@ def run_script(methods_by_name: dict, pair_factory, server_proto, impl, client_p
                         obs.append(["hdr", 0])
                     ended = False
 
-                    def one_tick():
+                    def one_tick(bad=False):
                         state["pending"] = []
                         try:
                             if m["k"] == "prod":
                                 ab = sess.tick()
+                            elif bad:     # a batch whose schema is not the stream's input schema
+                                ab = sess.exchange(AnnotatedBatch(batch=pa.RecordBatch.from_pydict({"b": ["z"]})))
                             else:
                                 ab = sess.exchange(AnnotatedBatch(batch=pa.RecordBatch.from_pydict({"a": [1]}, schema=INP)))
                         except CallbackBoom:
@@ -257,7 +259,7 @@ def run_script(methods_by_name: dict, pair_factory, server_proto, impl, client_p
                     oi = 0
                     def post_op(op):
                         """An operation on a session that has already ended: nothing may reach the wire."""
-                        if op in ("t", "i"):
+                        if op in ("t", "i", "b"):
                             try:
                                 if m["k"] == "prod":
                                     sess.tick()
@@ -288,6 +290,8 @@ def run_script(methods_by_name: dict, pair_factory, server_proto, impl, client_p
                             if ended == "boom":      # callback raised out of tick(): go to the script's exit op
                                 ended = False
                                 oi = len(ops) - 1
+                        elif op == "b":
+                            ended = one_tick(bad=True)
                         elif op == "i":
                             while not ended:
                                 ended = one_tick()
